@@ -374,6 +374,134 @@ func orderings(items []string) [][]string {
 
 var c05Events = []string{"reply", "cancel", "deadline", "close", "eof", "recverr", "malformed", "sendfault", "callback"}
 
+// c05Batch2: a Batch of two calls whose replies arrive as separate frames, in either order,
+// optionally with the batch context cancelled at an arbitrary moment. Every member must end with
+// its own reply or a cause that happened; OnCancel runs exactly for the members that ended
+// without a reply.
+func c05Batch2(items []string, b Bounds) *Scenario {
+	return &Scenario{
+		Name:   "batch[call,call] replies in separate frames order=" + strings.Join(items, ">"),
+		Params: map[string]any{"start_order": items},
+		Bounds: b,
+		New: func() *Instance {
+			h := &cliHarness{}
+			body := func() {
+				lib, peer, pipe := NewPipe(PipeOpts{Name: "cli", CloseUnblocksRecv: true})
+				h.pipe, h.peer = pipe, peer
+				c := jrpc2.NewClient(lib, &jrpc2.ClientOptions{
+					OnCancel: func(_ *jrpc2.Client, r *jrpc2.Response) { vs.Event("hook", "OnCancel", r.ID()) },
+				})
+				h.cli = c
+				ctx, cancel := context.WithCancel(context.Background())
+				defer cancel()
+				vs.GoNamed("peer", h.peerLoop)
+				var j Join
+				for _, it := range items {
+					switch it {
+					case "op":
+						j.Go("op", func() {
+							vs.Event("call", "op")
+							rsps, err := c.Batch(ctx, []jrpc2.Spec{{Method: "m0"}, {Method: "m1"}})
+							vs.Yield("ret")
+							if err != nil {
+								vs.Note("ret", "op", "err", err.Error())
+								return
+							}
+							vs.Note("ret", "op", "ok", fmt.Sprint(len(rsps)))
+							for i, r := range rsps {
+								if e := r.Error(); e != nil {
+									vs.Note("member", fmt.Sprint(i), r.ID(), "err", fmt.Sprint(int(e.Code)))
+								} else {
+									vs.Note("member", fmt.Sprint(i), r.ID(), "ok", r.ResultString())
+								}
+							}
+						})
+					case "r0", "r1":
+						m := "m" + it[1:]
+						j.Go(it, func() {
+							vs.Await(func() bool { return h.idOf(m) != "" || h.peerDone }, "await request")
+							if id := h.idOf(m); id != "" {
+								h.send(replyFor(m, id))
+							}
+						})
+					case "cancel":
+						j.Go("cancel", func() { vs.Event("env", "cancel"); cancel() })
+					}
+				}
+				vs.AwaitQuiescence()
+				if j.n > 0 {
+					vs.Event("call", "Close")
+					c.Close()
+				}
+				j.Wait()
+				c.Close()
+				vs.AwaitQuiescence()
+				n, ok := privLen(c, "pending")
+				vs.Note("snapshot", fmt.Sprintf("pending=%d/%v", n, ok))
+			}
+			check := func(x *vs.Exec) []Viol {
+				v := genericRules(x, nil)
+				if x.Outcome != "ok" {
+					return v
+				}
+				Hit("C05.R1")
+				ri := findEv(x, 0, "ret", "op")
+				if ri < 0 {
+					return append(v, Viol{"C05.R1", "Batch did not return"})
+				}
+				cancelled := findEv(x, 0, "env", "cancel") >= 0 && findEv(x, 0, "env", "cancel") < ri
+				closedEarly := findEv(x, 0, "call", "Close") >= 0 && findEv(x, 0, "call", "Close") < ri
+				Hit("C05.R2")
+				if x.Log[ri].Arg(1) != "ok" {
+					if !cancelled && !closedEarly {
+						v = append(v, Viol{"C05.R2", "Batch failed with " + x.Log[ri].Arg(2) + " although nothing had happened to its context or the client"})
+					}
+					return v
+				}
+				if x.Log[ri].Arg(2) != "2" {
+					return append(v, Viol{"C05.R2", "Batch returned " + x.Log[ri].Arg(2) + " responses for two calls"})
+				}
+				Hit("C05.R4")
+				for _, e := range x.Log {
+					if e.K != "member" {
+						continue
+					}
+					id, m := e.Arg(1), "m"+e.Arg(0)
+					hooks := 0
+					for _, f := range x.Log {
+						if f.K == "hook" && f.Arg(0) == "OnCancel" && f.Arg(1) == id {
+							hooks++
+						}
+					}
+					if e.Arg(2) == "ok" {
+						if want := fmt.Sprintf("%q", "R:"+m+":"+id); e.Arg(3) != want {
+							v = append(v, Viol{"C05.R2", fmt.Sprintf("member %s returned %s, the peer sent %s", m, e.Arg(3), want)})
+						}
+						if hooks != 0 {
+							v = append(v, Viol{"C05.R4", fmt.Sprintf("OnCancel ran %d times for the answered member %s", hooks, m)})
+						}
+						continue
+					}
+					if !cancelled && !closedEarly {
+						v = append(v, Viol{"C05.R2", fmt.Sprintf("member %s (id %s) ended with error code %s although its context never ended, the client was not closed and the channel did not fail", m, id, e.Arg(3))})
+					}
+					if hooks > 1 {
+						v = append(v, Viol{"C05.R4", fmt.Sprintf("OnCancel ran %d times for member %s", hooks, m)})
+					}
+				}
+				if s := findEv(x, 0, "snapshot"); s >= 0 {
+					Hit("C05.R7")
+					if a := x.Log[s].Arg(0); strings.HasSuffix(a, "/true") && a != "pending=0/true" {
+						v = append(v, Viol{"C05.R7", "requests still pending after Close: " + a})
+					}
+				}
+				return v
+			}
+			return &Instance{Body: body, Check: check}
+		},
+	}
+}
+
 func c05Scenarios(tier string) []*Scenario {
 	var out []*Scenario
 	q := tier == "quick"
@@ -412,6 +540,15 @@ func c05Scenarios(tier string) []*Scenario {
 			add("batch", pr, true, Bounds{2, 2, 0})
 			add("call", pr, false, Bounds{2, 2, 0})
 		}
+	}
+	for _, o := range [][]string{{"op", "r0", "r1"}, {"op", "r1", "r0"}, {"op", "r0", "cancel", "r1"}, {"op", "cancel", "r1", "r0"}, {"op", "r0"}, {"op", "r1"}} {
+		b := Bounds{1, 2, 0}
+		if q && has(o, "cancel") {
+			b = Bounds{1, 1, 0}
+		} else if !q {
+			b = Bounds{2, 2, 0}
+		}
+		out = append(out, c05Batch2(o, b))
 	}
 	if !q {
 		for _, tr := range [][]string{{"reply", "cancel", "close"}, {"reply", "eof", "close"}, {"callback", "reply", "close"}, {"cancel", "recverr", "reply"}} {
@@ -551,6 +688,76 @@ func c10ClientCancel(second, closeRace bool, b Bounds) *Scenario {
 	}
 }
 
+// c10ClientCallbacks: the peer has n callback requests in flight at once (optionally as one batch),
+// so the client's replies to them compete with each other (and with a caller / Close) for the channel.
+func c10ClientCallbacks(n int, batch, caller, closeRace bool, b Bounds) *Scenario {
+	name := fmt.Sprintf("client %d callbacks in flight", n)
+	if batch {
+		name += " (one batch)"
+	}
+	if caller {
+		name += " +caller"
+	}
+	if closeRace {
+		name += " +close"
+	}
+	return &Scenario{
+		Name:   name,
+		Params: map[string]any{"callbacks": n, "batch": batch, "caller": caller, "close": closeRace},
+		Bounds: b,
+		New: func() *Instance {
+			body := func() {
+				lib, peer, _ := NewPipe(PipeOpts{Name: "cli", CloseUnblocksRecv: true, Monitor: true})
+				c := jrpc2.NewClient(lib, &jrpc2.ClientOptions{OnCallback: func(ctx context.Context, r *jrpc2.Request) (any, error) {
+					vs.Yield("callback handler " + r.Method())
+					return r.Method(), nil
+				}})
+				var j Join
+				vs.GoNamed("peer", func() {
+					var reqs []string
+					for k := 0; k < n; k++ {
+						reqs = append(reqs, fmt.Sprintf(`{"jsonrpc":"2.0","id":"cb%d","method":"srvcall%d"}`, k, k))
+					}
+					if batch {
+						peer.Send([]byte("[" + strings.Join(reqs, ",") + "]"))
+					} else {
+						for _, q := range reqs {
+							peer.Send([]byte(q))
+						}
+					}
+					for {
+						rec, ok := peer.Recv()
+						if !ok {
+							break
+						}
+						ms, _, _ := parseRecord(rec)
+						for _, m := range ms {
+							if m.Has("method") && m.Has("id") {
+								peer.Send([]byte(fmt.Sprintf(`{"jsonrpc":"2.0","id":%s,"result":1}`, m.ID())))
+							}
+						}
+					}
+					peer.Close()
+				})
+				if caller {
+					j.Go("m0", func() { c.Call(context.Background(), "m0", nil) })
+				}
+				if closeRace {
+					j.Go("close", func() { c.Close() })
+				}
+				j.Wait()
+				vs.AwaitQuiescence()
+				c.Close()
+			}
+			check := func(x *vs.Exec) []Viol {
+				v := genericRules(x, nil)
+				return append(v, disciplineRules(x, "cli", 1)...)
+			}
+			return &Instance{Body: body, Check: check}
+		},
+	}
+}
+
 func c10ClientScenarios(tier string) []*Scenario {
 	b, bb := Bounds{2, 2, 0}, Bounds{1, 2, 0}
 	if tier != "quick" {
@@ -566,5 +773,9 @@ func c10ClientScenarios(tier string) []*Scenario {
 		c10ClientX(2, true, true, true, bb),
 		c10ClientCancel(true, false, b),
 		c10ClientCancel(false, true, b),
+		c10ClientCallbacks(2, false, false, false, b),
+		c10ClientCallbacks(2, true, false, false, bb),
+		c10ClientCallbacks(2, false, true, false, bb),
+		c10ClientCallbacks(2, false, false, true, bb),
 	}
 }
